@@ -6,6 +6,7 @@ package main
 import (
 	"context"
 	"fmt"
+	"io"
 	"os"
 	"path/filepath"
 	"regexp"
@@ -269,6 +270,85 @@ func question(name string) *dns.Msg {
 
 // runLoad: which = 0 raw Load/LoadFromTextReader, 1 domain_set, 2 hosts, 3 redirect, 4 qname matcher (base_domain).
 func runLoad(w *hx.Writer, id string, which int, dflt string, entries []string, text string, intended []irule, names []string) {
+	failed, qn, os_ := doLoad(id, which, dflt, entries, text, -1, names)
+	w.Emit("load", hx.Case{
+		ID: id,
+		Coq: hx.App("CLoad", hx.Ni(which), hx.Str(dflt), strsLit(entries), hx.Str(text), hx.Bool(failed),
+			irulesLit(intended), queriesLit(qn, os_)),
+		Desc: map[string]any{"kind": "load", "which": which, "default": dflt, "entries": entries, "text": text, "names": names, "failed": failed},
+		FKey: "load",
+	})
+}
+
+// a rule text with long runs: literal pieces and n copies of one byte (Judge.C12.tseg)
+type tseg struct {
+	lit string
+	b   byte
+	n   int
+}
+
+func expandSegs(segs []tseg) string {
+	var sb strings.Builder
+	for _, g := range segs {
+		if g.n > 0 {
+			sb.WriteString(strings.Repeat(string(g.b), g.n))
+		} else {
+			sb.WriteString(g.lit)
+		}
+	}
+	return sb.String()
+}
+
+// runLoadX: like runLoad on a text with over-long lines; cut >= 0 (which = 0 only): the text is
+// read through a reader that delivers its first cut bytes and then fails. intended = ALL rules
+// of the entries and of the whole text.
+func runLoadX(w *hx.Writer, id string, which int, dflt string, entries []string, segs []tseg, cut int, intended []irule, names []string) {
+	text := expandSegs(segs)
+	failed, qn, os_ := doLoad(id, which, dflt, entries, text, cut, names)
+	sl := make([]string, len(segs))
+	var sdesc []string
+	for i, g := range segs {
+		if g.n > 0 {
+			sl[i] = hx.App("TRep", hx.Ni(int(g.b)), hx.Ni(g.n))
+			sdesc = append(sdesc, fmt.Sprintf("%q x %d", string(g.b), g.n))
+		} else {
+			sl[i] = hx.App("TLit", hx.Str(g.lit))
+			sdesc = append(sdesc, fmt.Sprintf("%q", g.lit))
+		}
+	}
+	cutLit := "None"
+	if cut >= 0 {
+		cutLit = hx.Some(hx.Ni(cut))
+	}
+	w.Emit("loadx", hx.Case{
+		ID: id,
+		Coq: hx.App("CLoadX", hx.Ni(which), hx.Str(dflt), strsLit(entries), hx.List(sl), cutLit, hx.Bool(failed),
+			irulesLit(intended), queriesLit(qn, os_)),
+		Desc: map[string]any{"kind": "loadx", "which": which, "default": dflt, "entries": entries, "text": sdesc, "text_len": len(text),
+			"reader_fails_after": cut, "names": names, "failed": failed},
+		FKey: "loadx",
+	})
+}
+
+var errReadFault = fmt.Errorf("injected read fault")
+
+// faultReader delivers the first bytes of s and then fails.
+type faultReader struct {
+	s    string
+	pos  int
+	upTo int
+}
+
+func (f *faultReader) Read(p []byte) (int, error) {
+	if f.pos >= f.upTo {
+		return 0, errReadFault
+	}
+	n := copy(p, f.s[f.pos:f.upTo])
+	f.pos += n
+	return n, nil
+}
+
+func doLoad(id string, which int, dflt string, entries []string, text string, cut int, names []string) (bool, []string, []obs) {
 	failed := false
 	var os_ []obs
 	p := hx.Recover(func() {
@@ -285,7 +365,11 @@ func runLoad(w *hx.Writer, id string, which int, dflt string, entries []string, 
 				}
 			}
 			if !failed {
-				if err := domain.LoadFromTextReader[struct{}](m, strings.NewReader(text), nil); err != nil {
+				var rd io.Reader = strings.NewReader(text)
+				if cut >= 0 {
+					rd = &faultReader{s: text, upTo: cut}
+				}
+				if err := domain.LoadFromTextReader[struct{}](m, rd, nil); err != nil {
 					failed = true
 				}
 			}
@@ -389,13 +473,7 @@ func runLoad(w *hx.Writer, id string, which int, dflt string, entries []string, 
 	if failed && which != 0 {
 		qn, os_ = nil, nil
 	}
-	w.Emit("load", hx.Case{
-		ID: id,
-		Coq: hx.App("CLoad", hx.Ni(which), hx.Str(dflt), strsLit(entries), hx.Str(text), hx.Bool(failed),
-			irulesLit(intended), queriesLit(qn, os_)),
-		Desc: map[string]any{"kind": "load", "which": which, "default": dflt, "entries": entries, "text": text, "names": names, "failed": failed},
-		FKey: "load",
-	})
+	return failed, qn, os_
 }
 
 // ---------- domain sets assembled from members ----------
@@ -615,6 +693,171 @@ func genCompose(w *hx.Writer, id string, r *hx.RNG, maxDepth int) {
 		names = names[:9]
 	}
 	runCompose(w, id, sets, meaning, top, via, extra, extraMeaning, names)
+}
+
+// ---------- rule texts the scanner cannot finish ----------
+
+const maxToken = 64 * 1024 // bufio.MaxScanTokenSize
+
+// longLine builds one line (without its end of line) of exactly total bytes around an
+// optional rule text: variant 0 "#xxxx...", 1 rule + " #xxxx...", 2 "      ...rule", 3 rule + "   ...".
+func longLine(variant int, ruleText string, total int) []tseg {
+	switch variant {
+	case 0:
+		return []tseg{{lit: "#"}, {b: 'x', n: total - 1}}
+	case 1:
+		return []tseg{{lit: ruleText + " #"}, {b: 'c', n: total - len(ruleText) - 2}}
+	case 2:
+		return []tseg{{b: ' ', n: total - len(ruleText)}, {lit: ruleText}}
+	}
+	return []tseg{{lit: ruleText}, {b: '\t', n: total - len(ruleText)}}
+}
+
+// buildLoadX writes the rules of rs as entries / lines before / the long line / lines after.
+// It returns false when the rule set is not usable (too few plain rules).
+func buildLoadX(r *hx.RNG, which int, dflt string, rs ruleSet, variant, total int, noFinalEOL bool) (entries []string, segs []tseg, intended []irule, ok bool) {
+	type item struct {
+		text string
+		m    irule
+	}
+	var items []item
+	for _, ru := range rs.rules {
+		if ru.s == "" || strings.ContainsAny(ru.s, " \t#") {
+			continue
+		}
+		v := []int{}
+		text := ru.s
+		switch which {
+		case 2:
+			v = []int{ru.v[0]}
+			text += " 10.0.0." + strconv.Itoa(v[0])
+		case 3:
+			v = []int{ru.v[0]}
+			text += "\tv" + strconv.Itoa(v[0])
+		}
+		m := meaningOf(dflt, ru.s, v)
+		if m == nil {
+			continue
+		}
+		items = append(items, item{text, *m})
+	}
+	if len(items) < 2 {
+		return nil, nil, nil, false
+	}
+	// the last item always comes after the long line; one item may sit on the long line
+	onLine := -1
+	if variant != 0 {
+		onLine = r.Intn(len(items) - 1)
+	}
+	nEntries := 0
+	if r.Chance(1, 3) && len(items) > 2 && onLine != 0 {
+		nEntries = 1
+	}
+	split := r.Range(nEntries, len(items)-1) // items[split:] come after the long line
+	if onLine >= 0 && onLine < nEntries {
+		onLine = nEntries
+	}
+	if onLine >= 0 {
+		split = onLine + 1
+	}
+	var lit strings.Builder
+	flush := func() {
+		if lit.Len() > 0 {
+			segs = append(segs, tseg{lit: lit.String()})
+			lit.Reset()
+		}
+	}
+	eol := "\n"
+	if r.Chance(1, 4) {
+		eol = "\r\n"
+	}
+	for i, it := range items {
+		intended = append(intended, it.m)
+		if i < nEntries {
+			entries = append(entries, it.text)
+			continue
+		}
+		if i == split && onLine < 0 { // the long line stands alone, before item i
+			flush()
+			segs = append(segs, longLine(0, "", total-len(eol)+1)...)
+			lit.WriteString(eol)
+		}
+		if i == onLine {
+			flush()
+			segs = append(segs, longLine(variant, it.text, total-len(eol)+1)...)
+			lit.WriteString(eol)
+			continue
+		}
+		lit.WriteString(decorate(r, it.text))
+		if i < len(items)-1 || !noFinalEOL {
+			lit.WriteString(eol)
+		}
+	}
+	flush()
+	return entries, segs, intended, true
+}
+
+func loaderDefault(r *hx.RNG, which int) string {
+	switch which {
+	case 0:
+		return hx.Pick(r, []string{"domain", "domain", "full", "keyword"})
+	case 1, 4:
+		return "domain"
+	}
+	return "full"
+}
+
+// genLoadX: a text with a line around the scanner's limit followed by more rules, through every
+// loader; or (raw loader only) an ordinary text read through a reader that fails part-way.
+func genLoadX(w *hx.Writer, id string, r *hx.RNG, maxDepth int) {
+	which := hx.Pick(r, []int{0, 0, 1, 2, 3, 4})
+	dflt := loaderDefault(r, which)
+	rs := genRuleSet(r, dflt, 0, 5, maxDepth, false)
+	if which == 0 && r.Chance(1, 3) {
+		// read fault after k bytes
+		entries, segs, intended, ok := buildLoadX(r, which, dflt, rs, 0, 3, r.Bool())
+		if !ok {
+			return
+		}
+		text := expandSegs(segs)
+		hasRe := false
+		for _, m := range intended {
+			if m.kind == 3 {
+				hasRe = true
+			}
+		}
+		cut := r.Intn(len(text) + 1)
+		if hasRe || r.Bool() { // at a line boundary (a cut regexp would not be on the menu)
+			var bounds []int
+			for i := 0; i < len(text); i++ {
+				if text[i] == '\n' {
+					bounds = append(bounds, i+1)
+				}
+			}
+			bounds = append(bounds, 0)
+			if !hasRe || strings.HasSuffix(text, "\n") {
+				bounds = append(bounds, len(text))
+			}
+			cut = hx.Pick(r, bounds)
+		}
+		runLoadX(w, id, which, dflt, entries, segs, cut, intended, genNames(r, intended, r.Range(2, 4), maxDepth, false))
+		return
+	}
+	total := hx.Pick(r, []int{maxToken - 1, maxToken - 1, maxToken, maxToken, maxToken + 1, maxToken + 1 + r.Intn(5000), 2*maxToken + r.Intn(100), maxToken - 2 - r.Intn(50)})
+	entries, segs, intended, ok := buildLoadX(r, which, dflt, rs, r.Intn(4), total, r.Chance(1, 3))
+	if !ok {
+		return
+	}
+	names := genNames(r, intended[len(intended)-1:], 2, maxDepth, false) // names of the rule after the long line
+	names = append(names, genNames(r, intended, r.Range(1, 2), maxDepth, false)...)
+	if which >= 2 {
+		for i := range names {
+			if !strings.HasSuffix(names[i], ".") && r.Chance(2, 3) {
+				names[i] += "."
+			}
+		}
+	}
+	runLoadX(w, id, which, dflt, entries, segs, -1, intended, names)
 }
 
 // ---------- generators ----------
@@ -1413,6 +1656,57 @@ func main() {
 		}
 	}
 
+	// the scanner's 64 KiB line limit, exactly at and around it, through every loader: a rule
+	// before, the long line (a comment, or carrying a rule), rules after it
+	for which := 0; which <= 4; which++ {
+		val := func(v int) (string, []int) {
+			switch which {
+			case 2:
+				return " 10.0.0." + strconv.Itoa(v), []int{v}
+			case 3:
+				return " v" + strconv.Itoa(v), []int{v}
+			}
+			return "", []int{}
+		}
+		d := "domain"
+		if which == 2 || which == 3 {
+			d = "full"
+		}
+		v1, i1 := val(1)
+		v2, i2 := val(2)
+		v3, i3 := val(3)
+		intended := []irule{{2, "a.b", i1}, {1, "b.a", i2}, {4, "zz", i3}}
+		names := []string{"s.a.b.", "b.a.", "azz.", "b."}
+		for li, total := range []int{maxToken - 2, maxToken - 1, maxToken, maxToken + 1, 70000} {
+			for variant := 0; variant < 3; variant++ {
+				id := fmt.Sprintf("cat:long:%d:%d:%d", which, li, variant)
+				if !o.Want(id) || (variant > 0 && (li+which)%2 == 0) {
+					continue
+				}
+				var segs []tseg
+				switch variant {
+				case 0: // a long comment between the rules
+					segs = append([]tseg{{lit: "domain:a.b" + v1 + "\n"}}, longLine(0, "", total)...)
+					segs = append(segs, tseg{lit: "\nfull:b.a" + v2 + "\nkeyword:zz" + v3 + "\n"})
+				case 1: // the second rule sits on the long line
+					segs = append([]tseg{{lit: "domain:a.b" + v1 + "\n"}}, longLine(1, "full:b.a"+v2, total)...)
+					segs = append(segs, tseg{lit: "\nkeyword:zz" + v3})
+				default: // the long line is the last one and has no end of line
+					segs = append([]tseg{{lit: "domain:a.b" + v1 + "\r\nfull:b.a" + v2 + "\r\n"}}, longLine(2, "keyword:zz"+v3, total)...)
+				}
+				runLoadX(w, id, which, d, nil, segs, -1, intended, names)
+			}
+		}
+	}
+	// a reader that fails after k bytes (raw loader)
+	for i, cut := range []int{0, 4, 11, 12, 17, 22, 23} {
+		id := fmt.Sprintf("cat:fault:%d", i)
+		if o.Want(id) {
+			runLoadX(w, id, 0, "domain", []string{"full:b"}, []tseg{{lit: "domain:a.b\nfull:b.a\n#c\n"}}, cut,
+				[]irule{{1, "b", []int{}}, {2, "a.b", []int{}}, {1, "b.a", []int{}}}, []string{"s.a.b", "b.a", "b", "a", "b.a.b", "s.a"})
+		}
+	}
+
 	n := o.Count(900, 30000)
 	for i := 0; i < n; i++ {
 		id := fmt.Sprintf("gen:%d", i)
@@ -1420,7 +1714,7 @@ func main() {
 			continue
 		}
 		r := hx.NewRNG(o.Seed, id)
-		switch c := r.Intn(23); {
+		switch c := r.Intn(24); {
 		case c < 11: // mix matcher, well-formed
 			rs := genRuleSet(r, genDefault(r, false), 0, maxRules, maxDepth, false)
 			runMix(w, id, rs.dflt, rs.rules, genNames(r, rs.intended, r.Range(2, 5), maxDepth, false))
@@ -1451,6 +1745,8 @@ func main() {
 			runSingle(w, id, kind, rules, genNames(r, ir, r.Range(2, 5), maxDepth, malformed))
 		case c < 20:
 			genLoad(w, id, r, maxRules, maxDepth)
+		case c < 21: // over-long lines and read faults
+			genLoadX(w, id, r, maxDepth)
 		default: // domain sets assembled from members
 			genCompose(w, id, r, maxDepth)
 		}
